@@ -379,6 +379,12 @@ func (c *Ctx) finish(meta propMeta, start time.Time) int {
 		path := filepath.Join(replayDir, fmt.Sprintf("%s-%d.json", c.Prop, i+1))
 		b, _ := json.MarshalIndent(map[string]any{"property": c.Prop, "tier": c.Tier, "obligation": o, "rule_doc": c.ruleDoc[o.Rule], "repo": c.Repo}, "", " ")
 		os.WriteFile(path, b, 0o644)
+		if i == 12 {
+			fmt.Printf("  ... %d more violations; see %s/%s-*.json and the evidence file\n", len(viol)-12, replayDir, c.Prop)
+		}
+		if i >= 12 {
+			continue
+		}
 		fmt.Printf("VIOLATION property=%s replay=%s\n", c.Prop, path)
 		fmt.Printf("  rule=%s construct=%s at %s\n  %s\n", o.Rule, o.Key, o.Pos, o.Detail)
 		if o.Witness != "" {
